@@ -42,7 +42,7 @@ func descriptorShapes() []shapeCase {
 	}
 	// recursion: where the cycle is entered from
 	for _, where := range []string{"request", "response", "both"} {
-		for _, via := range []string{"singular", "repeated", "map-value", "oneof", "optional"} {
+		for _, via := range []string{"singular", "repeated", "map-value", "oneof", "optional", "flatten", "flatten-prefix", "unwrap-list", "unwrap-map-value", "disc-oneof", "disc-oneof-flatten"} {
 			for _, cyc := range []int{1, 2, 3} {
 				where, via, cyc := where, via, cyc
 				mk(fmt.Sprintf("recursive/%s/%s/cycle%d", where, via, cyc), func(pkg string) *spec.File {
@@ -62,6 +62,22 @@ func descriptorShapes() []shapeCase {
 						case "oneof":
 							m.Oneofs = []*spec.Oneof{{Name: "kind"}}
 							m.Fields = append(m.Fields, spec.FM("sub", 2, next).In(1), spec.F("leaf", 3, spec.String).In(1))
+						// cycles that run through a JSON-mapping annotation
+						case "flatten":
+							m.Fields = []*spec.Field{spec.F(fmt.Sprintf("label%d", i), 1, spec.String), spec.FM("next", 2, next).With(func(a *spec.Ann) { a.Flatten = spec.B(true) })}
+						case "flatten-prefix":
+							m.Fields = append(m.Fields, spec.FM("next", 2, next).With(func(a *spec.Ann) { a.Flatten = spec.B(true); a.FlattenPrefix = spec.S("next_") }))
+						case "unwrap-list":
+							m.Fields = []*spec.Field{spec.FM("children", 1, next).Rep().With(func(a *spec.Ann) { a.Unwrap = true })}
+						case "unwrap-map-value":
+							lst := &spec.Message{Name: fmt.Sprintf("List%d", i), Fields: []*spec.Field{spec.FM("items", 1, next).Rep().With(func(a *spec.Ann) { a.Unwrap = true })}}
+							msgs = append(msgs, lst)
+							m.Fields = append(m.Fields, spec.FM("by_name", 2, fmt.Sprintf(".%s.List%d", pkg, i)).MapOf(spec.String))
+						case "disc-oneof", "disc-oneof-flatten":
+							leaf := &spec.Message{Name: fmt.Sprintf("Leaf%d", i), Fields: []*spec.Field{spec.F("text", 1, spec.String)}}
+							msgs = append(msgs, leaf)
+							m.Oneofs = []*spec.Oneof{{Name: "kind", HasConfig: true, Discriminator: "type", Flatten: via == "disc-oneof-flatten"}}
+							m.Fields = []*spec.Field{spec.F(fmt.Sprintf("tag%d", i), 1, spec.String), spec.FM("sub", 2, next).In(1), spec.FM("leaf", 3, fmt.Sprintf(".%s.Leaf%d", pkg, i)).In(1)}
 						}
 						msgs = append(msgs, m)
 					}
